@@ -387,6 +387,15 @@ func vScenarioC11(rc *runCtx) {
 	tp := rc.tape
 	cfg, o, before := vSmallXfer(rc, []int{2, 5, 20})
 	T := time.Duration(cfg.timeout) * time.Second
+	// Windows newline mode has a line reader of its own: its reads carry the same deadlines
+	if _, enum := rc.enumInt("enum_kind"); !enum && rc.param("slowdisk", "") != "1" && tp.Bool("c11.windows", 150) {
+		if tp.Bool("c11.winsrv", 500) {
+			cfg.srvWindows, o.srvWindows = true, true
+		} else {
+			cfg.cliWindows, o.cliWindows = true, true
+		}
+		rc.res.Scenario["config"] = cfg.key()
+	}
 	x := newXferWorld(rc, o)
 	w := rc.w
 
@@ -416,8 +425,14 @@ func vScenarioC11(rc *runCtx) {
 	if v, ok := rc.enumInt("enum_kind"); ok {
 		kind = c11kinds[v%13]
 	}
+	notimeoutPm := 250
+	if rc.param("resume", "") == "1" {
+		// local failures while resuming over an older destination
+		kind = []string{"src-shrink-at-name", "src-read-error", "src-shrink", "disk-write"}[tp.Pick("c11.resumekind", 3, 1, 1, 1)]
+		notimeoutPm = 500
+	}
 	// a local failure ends the transfer also when the user asked never to time out
-	if !enumerated && (strings.HasPrefix(kind, "disk-") || strings.HasPrefix(kind, "src-")) && kind != "disk-slow-then-full" && tp.Bool("c11.notimeout", 250) {
+	if !enumerated && (strings.HasPrefix(kind, "disk-") || strings.HasPrefix(kind, "src-")) && kind != "disk-slow-then-full" && tp.Bool("c11.notimeout", notimeoutPm) {
 		cfg.timeout = 0
 		o.flags = cfg.flags()
 		T = 0
@@ -598,7 +613,7 @@ func vScenarioC11(rc *runCtx) {
 			nameLink = x.up[0]
 		}
 		wrap(nameLink, func(l *verifsim.Link, dd []byte) []byte {
-			if faultAt >= 0 || !bytes.HasPrefix(dd, []byte("#NAME:")) || !fire() {
+			if faultAt >= 0 || !bytes.HasPrefix(dd, []byte("#NAME:")) || !actSeen || !tp.Bool("c11.nameshrink", 500) {
 				return dd
 			}
 			end := bytes.IndexAny(dd, "!\n")
